@@ -8,11 +8,13 @@ import (
 	"encoding/json"
 	"fmt"
 	"math/big"
+	"net/http"
 	"net/http/httptest"
 	"net/url"
 	"os"
 	"sort"
 	"strings"
+	"time"
 
 	ledger "github.com/formancehq/ledger/internal"
 	"github.com/formancehq/ledger/internal/storage/ledgerstore"
@@ -40,6 +42,7 @@ func c17StoreWalks(rep *evid.Reporter, maxN int) (walks, fetches int) {
 		sizes = append(sizes, n)
 	}
 	sizes = append(sizes, 17) // more than the default page size of 15
+	sizes = append(sizes, 103) // more than the largest page the v2 API serves (100): only walked through the HTTP layer
 	for _, n := range sizes {
 		st := &c04State{db: pgmini.New(), logs: map[string][]*ledger.ChainedLog{}, bad: map[string]bool{}}
 		if err := st.db.LoadSchema("b1", string(ddl)); err != nil {
@@ -65,6 +68,9 @@ func c17StoreWalks(rep *evid.Reporter, maxN int) (walks, fetches int) {
 		}
 		store := st.store("l1")
 		for _, filtered := range []bool{false, true} {
+			if n > 50 {
+				break
+			}
 			var qb query.Builder
 			if filtered {
 				qb, _ = query.ParseJSON(`{"$match":{"metadata[tag]":"even"}}`)
@@ -148,10 +154,15 @@ func c17StoreWalks(rep *evid.Reporter, maxN int) (walks, fetches int) {
 			}
 		}
 		// the same listings as a client walks them: GET with pageSize, then ?cursor=<next/previous> only, on v1 and v2
-		if n == 0 || n == 3 || n == maxN || n == 17 {
+		if n == 0 || n == 3 || n == maxN || n == 17 || n > 50 {
 			w, f := c17HTTPWalks(rep, st, n)
 			walks += w
 			fetches += f
+			if n == 3 || n == maxN {
+				w, f = c17MutationWalk(rep, st, n)
+				walks += w
+				fetches += f
+			}
 		}
 		_ = store.GetDB().Close()
 	}
@@ -202,12 +213,20 @@ func c17HTTPWalks(rep *evid.Reporter, st *c04State, n int) (walks, fetches int) 
 			}})
 		}
 		for _, l := range listings {
-			for _, ps := range []int{0, 1, 2, n, n + 1} {
+			sizes := []int{0, 1, 2, n, n + 1}
+			if n > 50 {
+				// around the largest page of v2 (100; a larger request is served 100 at a time) - v1 serves up to 1000
+				sizes = []int{51, 100, 101, 102}
+			}
+			for _, ps := range sizes {
 				if ps < 0 || (ps == 0 && n != 17 && n != 3) {
 					continue
 				}
 				first := "/api/ledger/" + api + "l1/" + l.path
 				eff := uint64(ps)
+				if api != "" && eff > 100 {
+					eff = 100
+				}
 				if ps == 0 {
 					eff = 15 // the documented default page size
 				} else {
@@ -255,6 +274,101 @@ func c17HTTPWalks(rep *evid.Reporter, st *c04State, n int) (walks, fetches int) 
 				fetches += int(tr)
 				if !ok {
 					rep.Undecide("http-level walk: the interpreter cannot execute a statement of " + name)
+				}
+			}
+		}
+	}
+	return
+}
+
+// c17MutationWalk: a v2 listing is the answer to a query as of the instant of its first page; a write that lands between two
+// page fetches (dated after that instant, as any concurrent write is) must not move what the following tokens stand for.
+func c17MutationWalk(rep *evid.Reporter, st *c04State, n int) (walks, fetches int) {
+	mkRouter := func(s *c04State) (http.Handler, func()) {
+		store := s.store("l1")
+		b := recbackend.New("l1")
+		b.R = recbackend.Reads{GetAccountsWithVolumes: store.GetAccountsWithVolumes, CountAccounts: store.CountAccounts, GetAggregatedBalances: store.GetAggregatedBalances,
+			GetLogs: store.GetLogs, CountTransactions: store.CountTransactions, GetTransactions: store.GetTransactions,
+			GetAccountWithVolumes: store.GetAccountWithVolumes, GetTransactionWithVolumes: store.GetTransactionWithVolumes}
+		return newRouter(b, false), func() { _ = store.GetDB().Close() }
+	}
+	var txDesc, accAsc []string
+	for i := n - 1; i >= 0; i-- {
+		txDesc = append(txDesc, fmt.Sprint(i))
+	}
+	for i := 0; i < n; i++ {
+		accAsc = append(accAsc, fmt.Sprintf("acc%d", i))
+	}
+	sort.Strings(accAsc)
+	accAsc = append(accAsc, "world")
+	for _, l := range []struct {
+		path string
+		want []string
+		key  string
+	}{{"accounts", accAsc, "address"}, {"transactions", txDesc, "id"}} {
+		for _, ps := range []int{1, 2, 3} {
+			for after := 1; after*ps < len(l.want); after++ {
+				// pages 1..after are fetched, then the write lands, then the walk goes on
+				routerA, closeA := mkRouter(st)
+				later, errText := st.apply(c04Op{Name: "write between two pages", Ledger: "l1", At: ledger.Time{Time: time.Now().UTC().Add(time.Second).Round(time.Microsecond)}, Make: func(s *c04State) []*ledger.Log {
+					t := ledger.NewTransaction().WithPostings(ledger.NewPosting("world", "aaa", "X", big.NewInt(1))).WithID(big.NewInt(int64(n))).WithDate(c04T1)
+					return []*ledger.Log{ledger.NewTransactionLogWithDate(t, map[string]metadata.Metadata{}, ledger.Time{})}
+				}})
+				if later == nil {
+					closeA()
+					rep.Undecide("cannot apply the concurrent write on the interpreter: " + errText)
+					return
+				}
+				routerB, closeB := mkRouter(later)
+				name := fmt.Sprintf("v2 %s n=%d pageSize=%d, a write lands after page %d", l.path, n, ps, after)
+				replay := map[string]interface{}{"engine": "cursorwalk-http-mutation", "listing": name}
+				var got []string
+				target := fmt.Sprintf("/api/ledger/v2/l1/%s?pageSize=%d", l.path, ps)
+				failed := ""
+				for page := 1; page <= len(l.want)+3; page++ {
+					router := routerA
+					if page > after {
+						router = routerB
+					}
+					req := httptest.NewRequest("GET", target, nil).WithContext(engineh.QuietCtx())
+					w := httptest.NewRecorder()
+					router.ServeHTTP(w, req)
+					fetches++
+					var body struct {
+						Cursor struct {
+							HasMore bool                     `json:"hasMore"`
+							Next    string                   `json:"next"`
+							Data    []map[string]interface{} `json:"data"`
+						} `json:"cursor"`
+					}
+					dec := json.NewDecoder(bytes.NewReader(w.Body.Bytes()))
+					dec.UseNumber()
+					_ = dec.Decode(&body)
+					if w.Code != 200 {
+						failed = fmt.Sprintf("GET %s answers %d %s", target, w.Code, w.Body.String())
+						break
+					}
+					for _, it := range body.Cursor.Data {
+						got = append(got, fmt.Sprint(it[l.key]))
+					}
+					if !body.Cursor.HasMore {
+						break
+					}
+					target = fmt.Sprintf("/api/ledger/v2/l1/%s?cursor=%s", l.path, url.QueryEscape(body.Cursor.Next))
+				}
+				closeA()
+				closeB()
+				walks++
+				if failed != "" {
+					if strings.Contains(failed, "pgmini") {
+						rep.Undecide("mutation walk: the interpreter cannot execute a statement: " + failed)
+					} else {
+						rep.Violation("http-mutation-walk-error:"+l.path, failed+" ["+name+"]", replay)
+					}
+					continue
+				}
+				if strings.Join(got, ",") != strings.Join(l.want, ",") {
+					rep.Violation("http-mutation-walk:"+l.path, fmt.Sprintf("following next yields %v; the listing the first page belongs to is %v [%s]", got, l.want, name), replay)
 				}
 			}
 		}
